@@ -512,10 +512,137 @@ let qsbr_inst (c : case) : QsbrDefs.state inst =
     step = (fun st t _ -> QsbrDefs.step_gen toff nslots st (Step (nat_of_int t)));
     pctag = (fun st t -> let p = st.th (nat_of_int t) in if Obj.is_int (Obj.repr p) then "i" ^ string_of_int (Obj.magic p : int) else string_of_int (Obj.tag (Obj.repr p))); nm }
 
+(* ---------------------------------------------------------------- lock_free_ref_count reclaimer with the generic client (C01/C02) *)
+let lfrc_inst (c : case) : LfrcDefs.state inst =
+  let open LfrcDefs in
+  let ncells = nat_of_int (int_of_string (cfg_get c "cells" "2")) in
+  let nslots = nat_of_int (int_of_string (cfg_get c "slots" "3")) in
+  let nat_of_string s = nat_of_int (int_of_string s) in
+  let nm = {
+    named = (fun i -> if i = 0 then "free_head" else "cell" ^ string_of_int (i - 10));
+    opname = (function 0 -> "repl" | 1 -> "clear" | 2 -> "read" | 3 -> "hold" | 4 -> "drop" | 5 -> "deref" | _ -> "?");
+    resname = (fun r -> match List.map int_of_n r with [0] -> "ok" | [1] -> "lost" | [2] -> "null" | [3; _] -> string_of_n (List.nth r 1) | _ -> "?");
+    note = no_note } in
+  { init = LfrcDefs.init ncells;
+    idle = (fun st t -> match st.th (nat_of_int t) with Idle -> true | _ -> false);
+    start = (fun st t (name, args) ->
+      let o = match name, args with
+        | "repl", [x] -> ORepl (nat_of_string x) | "clear", [x] -> OClear (nat_of_string x) | "read", [x] -> ORead (nat_of_string x)
+        | "hold", [x; g] -> OHold (nat_of_string x, nat_of_string g) | "deref", [g] -> ODeref (nat_of_string g)
+        | "drop", [g] -> ODrop (nat_of_string g) | _ -> OExit in
+      match LfrcDefs.step nslots st (Start (nat_of_int t, o)) with Some (s', _) -> Some s' | None -> None);
+    step = (fun st t _ -> LfrcDefs.step nslots st (Step (nat_of_int t)));
+    pctag = (fun st t -> let p = st.th (nat_of_int t) in if Obj.is_int (Obj.repr p) then "i" ^ string_of_int (Obj.magic p : int) else string_of_int (Obj.tag (Obj.repr p))); nm }
+
+(* ---------------------------------------------------------------- nikolaev_bounded_queue (two SCQ index rings; C05) *)
+let nikb_inst (c : case) : NikbDefs.state inst =
+  let open NikbDefs in
+  let rec npow2 p c = if p >= c then p else npow2 (2 * p) c in
+  let cap = n_of_int (npow2 1 (int_of_string (cfg_get c "cap" "2"))) in
+  (* the harness instantiates pop_retries as 0 (retries=0) or 2 (otherwise) *)
+  let r = n_of_int (if int_of_string (cfg_get c "retries" "2") = 0 then 0 else 2) in
+  (* cfg old=1: the code before the repair of nikolaev_scq (only for replaying the recorded defect) *)
+  let stp = if cfg_get c "old" "0" = "1" then NikbDefs.step_old else NikbDefs.step in
+  let nm = { named = (fun _ -> "?");
+    opname = (function 0 -> "push" | 1 -> "pop" | 2 -> "tpop" | _ -> "?");
+    resname = (fun r -> match List.map int_of_n r with [1] -> "ok" | [1; _] -> string_of_n (List.nth r 1) | [0] -> "full" | [3] -> "empty" | _ -> "?");
+    note = no_note } in
+  { init = NikbDefs.init cap;
+    idle = (fun st t -> match st.th (nat_of_int t) with Idle -> true | _ -> false);
+    start = (fun st t (name, args) ->
+      let o = match name, args with "push", [v] -> OPush (n_of_string v) | "tpop", _ -> OPop true | _ -> OPop false in
+      match stp cap r st (Start (nat_of_int t, o)) with Some (s', _) -> Some s' | None -> None);
+    step = (fun st t _ -> stp cap r st (Step (nat_of_int t)));
+    pctag = simple_pctag (fun st -> st.th); nm }
+
+(* ---------------------------------------------------------------- kirsch_kfifo_queue (C06, unbounded) *)
+(* the n-th call of utils::random() gets the n-th recorded choice (model draw counter g_nch), 0 when exhausted - as ReplaySched::choice *)
+let kfq_inst (c : case) : KfqDefs.state inst =
+  let open KfqDefs in
+  let k = n_of_int (int_of_string (cfg_get c "k" "2")) in
+  let choice st = match List.nth_opt c.choices (int_of_n st.g_nch) with Some x -> n_of_int x | None -> n_of_int 0 in
+  let nm = {
+    named = (fun _ -> "?");
+    opname = (function 0 -> "push" | 1 -> "pop" | _ -> "?");
+    resname = (fun r -> match List.map int_of_n r with [1] -> "ok" | [2] -> "empty" | [1; _] -> string_of_n (List.nth r 1) | _ -> "?");
+    note = (fun code args -> match code, args with
+      | 130, [c; n] -> Some ("CHOICE " ^ string_of_n c ^ " " ^ string_of_n n)
+      | 120, [h] -> Some ("RETIRE h" ^ string_of_n h ^ "+0")
+      | _ -> None);
+  } in
+  { init = KfqDefs.init;
+    idle = (fun st t -> match st.th (nat_of_int t) with Idle -> true | _ -> false);
+    start = (fun st t (name, args) ->
+      let o = match name, args with "push", [v] -> OPush (n_of_string v) | _ -> OPop in
+      match KfqDefs.step k st (Start (nat_of_int t, o)) with Some (s', _) -> Some s' | None -> None);
+    step = (fun st t _ -> KfqDefs.step k st (Step (nat_of_int t, choice st)));
+    pctag = simple_pctag (fun st -> st.th);
+    nm }
+
+(* ---------------------------------------------------------------- hazard_eras<static_strategy<3>> with the generic client (C01/C02) *)
+let he_inst (c : case) : HeDefs.state inst =
+  let open HeDefs in
+  let ncells = nat_of_int (int_of_string (cfg_get c "cells" "2")) in
+  let nslots = nat_of_int (int_of_string (cfg_get c "slots" "3")) in
+  let nat_of_string s = nat_of_int (int_of_string s) in
+  let nm = {
+    named = (fun i -> if i = 0 then "tbl_head" else if i = 1 then "nact" else if i = 2 then "abandoned" else if i = 3 then "era_clock" else "cell" ^ string_of_int (i - 10));
+    opname = (function 0 -> "repl" | 1 -> "clear" | 2 -> "read" | 3 -> "hold" | 4 -> "deref" | 5 -> "drop" | 6 -> "exit" | _ -> "?");
+    resname = (fun r -> match List.map int_of_n r with [0] -> "ok" | [1] -> "lost" | [2] -> "null" | [3; _] -> string_of_n (List.nth r 1) | [4] -> "throw" | _ -> "?");
+    note = no_note;
+  } in
+  { init = HeDefs.init ncells;
+    idle = (fun st t -> match st.th (nat_of_int t) with Idle -> true | _ -> false);
+    start = (fun st t (name, args) ->
+      let o = match name, args with
+        | "repl", [x] -> ORepl (nat_of_string x) | "clear", [x] -> OClear (nat_of_string x) | "read", [x] -> ORead (nat_of_string x)
+        | "hold", [x; g] -> OHold (nat_of_string x, nat_of_string g) | "deref", [g] -> ODeref (nat_of_string g)
+        | "drop", [g] -> ODrop (nat_of_string g) | _ -> OExit in
+      match HeDefs.step nslots st (Start (nat_of_int t, o)) with Some (s', _) -> Some s' | None -> None);
+    step = (fun st t _ -> HeDefs.step nslots st (Step (nat_of_int t)));
+    pctag = simple_pctag (fun st -> st.th);
+    nm }
+
+(* ---------------------------------------------------------------- harris_michael_hash_map (GC reclaimer): map operations and iterators (C08, C09) *)
+let hmm_inst (c : case) : HmmDefs.state inst =
+  let open HmmDefs in
+  let nb = n_of_int (match int_of_string (cfg_get c "buckets" "1") with 1 -> 1 | 2 -> 2 | 4 -> 4 | _ -> 8) in
+  let memo = cfg_get c "memo" "0" <> "0" in
+  let lex = cfg_get c "lex" "1" <> "0" in   (* lex=0: the former greater_or_equal (hash >= h && key >= k), regression witness only *)
+  let hf = match cfg_get c "hash" "id" with "const" -> hf_const | "mod2" -> hf_mod2 | "rev" -> hf_rev | _ -> hf_id in
+  let pos = function [0] -> "end" | [1; k] -> string_of_int k | _ -> "?" in
+  let nm = {
+    named = (fun _ -> "?");
+    opname = (function 0 -> "ins" | 1 -> "getins" | 2 -> "del" | 3 -> "has" | 4 -> "find" | 5 -> "itb" | 6 -> "itf" | 7 -> "itn"
+                     | 8 -> "itd" | 9 -> "ite" | 10 -> "itr" | _ -> "?");
+    resname = (fun r -> match List.map int_of_n r with
+      | [0; 1] -> "new" | [0; 0] -> "old"
+      | [1; b; k; v] -> if v <> 10 * k then "BADVAL" else if b = 1 then "new" else "old"
+      | [2; 1] -> "ok" | [2; 0] -> "no" | [3; 1] -> "yes" | [3; 0] -> "no"
+      | [9; 0] -> "end" | 9 :: 1 :: was :: p -> string_of_int was ^ ">" ^ pos p
+      | [10] -> "ok"
+      | (4 | 5 | 6 | 7 | 8) :: p -> pos p
+      | _ -> "?");
+    note = (fun code args -> match code, args with 120, [h] -> Some ("RETIRE h" ^ string_of_n h ^ "+0") | _ -> None);
+  } in
+  let stp st a = HmmDefs.step nb memo lex hf st a in
+  { init = HmmDefs.init nb;
+    idle = (fun st t -> match st.th (nat_of_int t) with Idle -> true | _ -> false);
+    start = (fun st t (name, args) ->
+      let k = match args with v :: _ -> n_of_string v | [] -> n_of_int 0 in
+      let v = match args with _ :: v :: _ -> n_of_string v | [ks] -> n_of_int (10 * int_of_string ks) | _ -> n_of_int 0 in
+      let o = match name with
+        | "ins" -> OIns (k, v) | "getins" -> OGet (k, v) | "del" -> ODel k | "has" -> OHas k | "find" -> OFind k
+        | "itb" -> OItB | "itf" -> OItF k | "itn" -> OItN | "itd" -> OItD | "ite" -> OItE | _ -> OItR in
+      match stp st (Start (nat_of_int t, o)) with Some (s', _) -> Some s' | None -> None);
+    step = (fun st t _ -> stp st (Step (nat_of_int t)));
+    pctag = simple_pctag (fun st -> st.th);
+    nm }
+
 let () =
   let model = Sys.argv.(1) and cmd = Sys.argv.(2) and path = Sys.argv.(3) in
   let c = parse_case path in
-  let c = if model = "ebr" || model = "qsbr" then ebr_with_exit c else c in
+  let c = if model = "ebr" || model = "qsbr" || model = "lfrc" then ebr_with_exit c else c in
   let go inst =
     match cmd with
     | "run" ->
@@ -550,4 +677,9 @@ let () =
   | "ram" -> go (ram_inst c)
   | "kfb" -> go (kfb_inst c)
   | "qsbr" -> go (qsbr_inst c)
+  | "lfrc" -> go (lfrc_inst c)
+  | "nikb" -> go (nikb_inst c)
+  | "kfq" -> go (kfq_inst c)
+  | "he" -> go (he_inst c)
+  | "hmm" -> go (hmm_inst c)
   | _ -> prerr_endline ("unknown model " ^ model); exit 2
